@@ -37,7 +37,7 @@ Proof.
 Qed.
 
 Theorem scope_truthful_cdb : forall sep f db fm8 fmM,
-  wf_file f -> cdb_db f = Some db ->
+  wf_kinds f = true -> wf_addrs f = true -> (forall m, wf_subnets (nets_of f m)) -> cdb_db f = Some db ->
   forall ev q r e mo8 moM rip,
   fm8 = Ok mo8 -> fmM = Ok moM -> q_rip q = Some rip -> rip < two128 ->
   badvers q = false -> no_backend_error ev ->
@@ -47,12 +47,13 @@ Theorem scope_truthful_cdb : forall sep f db fm8 fmM,
     e_scope e' = expected_scope (nets_of f) (map_of mo8) e /\
     (e_fam e = 1 -> e_scope e' <= 32) /\ (e_fam e = 2 -> e_scope e' <= 128).
 Proof.
-  intros sep f db fm8 fmM Hf Hdb.
-  exact (scope_truthful (nets_of f) true fm8 fmM (cdb_get_location sep db) (cdb_gl_is_lpm sep f db Hf Hdb)).
+  intros sep f db fm8 fmM Hk Ha Hw Hdb.
+  exact (scope_truthful (nets_of f) true fm8 fmM (cdb_get_location sep db)
+           (cdb_gl_is_lpm sep f db (conj Hk (conj Ha Hw)) Hdb)).
 Qed.
 
 Theorem fallback_to_resolver_cdb : forall sep f db fm8 fmM,
-  wf_file f -> cdb_db f = Some db ->
+  wf_kinds f = true -> wf_addrs f = true -> (forall m, wf_subnets (nets_of f m)) -> cdb_db f = Some db ->
   forall ev q r mo8 moM rip,
   fm8 = Ok mo8 -> fmM = Ok moM -> q_rip q = Some rip -> rip < two128 ->
   badvers q = false -> no_backend_error ev ->
@@ -65,19 +66,21 @@ Theorem fallback_to_resolver_cdb : forall sep f db fm8 fmM,
             | None => resolver_decides (nets_of f) (map_of moM) rip
             end.
 Proof.
-  intros sep f db fm8 fmM Hf Hdb.
-  exact (fallback_to_resolver (nets_of f) true fm8 fmM (cdb_get_location sep db) (cdb_gl_is_lpm sep f db Hf Hdb)).
+  intros sep f db fm8 fmM Hk Ha Hw Hdb.
+  exact (fallback_to_resolver (nets_of f) true fm8 fmM (cdb_get_location sep db)
+           (cdb_gl_is_lpm sep f db (conj Hk (conj Ha Hw)) Hdb)).
 Qed.
 
 Theorem always_replies_cdb : forall sep f db fm8 fmM,
-  wf_file f -> cdb_db f = Some db ->
+  wf_kinds f = true -> wf_addrs f = true -> (forall m, wf_subnets (nets_of f m)) -> cdb_db f = Some db ->
   forall ev q mo8 moM rip,
   fm8 = Ok mo8 -> fmM = Ok moM -> q_rip q = Some rip -> rip < two128 ->
   (forall e, query_ecs q = Some e -> wf_ecs e) ->
   exists r, serve fm8 fmM (cdb_get_location sep db) ev q = Reply r.
 Proof.
-  intros sep f db fm8 fmM Hf Hdb.
-  exact (always_replies (nets_of f) true fm8 fmM (cdb_get_location sep db) (cdb_gl_is_lpm sep f db Hf Hdb)).
+  intros sep f db fm8 fmM Hk Ha Hw Hdb.
+  exact (always_replies (nets_of f) true fm8 fmM (cdb_get_location sep db)
+           (cdb_gl_is_lpm sep f db (conj Hk (conj Ha Hw)) Hdb)).
 Qed.
 
 (* ---------------------------------------------------------------- RocksDB *)
@@ -90,6 +93,15 @@ Definition rdb_holds_points (sort : list point -> list point) (nets : mapid -> l
     (forall p, In p pts -> In (rp_key m p, mv1 (rp_value p)) db) /\
     (forall k v, In (k, v) db -> is_prefix (rp_marker ++ mapid_bytes m) k = true ->
        exists p, In p pts /\ k = rp_key m p /\ v = mv1 (rp_value p)).
+
+(* the definition, spelled out *)
+Lemma rdb_holds_points_unfold : forall sort nets db,
+  rdb_holds_points sort nets db <->
+  forall m, exists pts, rearrange sort (nets m) = Ok pts /\
+    (forall p, In p pts -> In (rp_key m p, mv1 (rp_value p)) db) /\
+    (forall k v, In (k, v) db -> is_prefix (rp_marker ++ mapid_bytes m) k = true ->
+       exists p, In p pts /\ k = rp_key m p /\ v = mv1 (rp_value p)).
+Proof. intros. apply iff_refl. Qed.
 
 Lemma rdb_gl_is_lpm : forall sort nets db, sort_spec sort -> (forall m, wf_subnets (nets m)) ->
   rdb_holds_points sort nets db ->
